@@ -119,6 +119,14 @@ Proof.
   intros s e C. unfold is_zero. destruct (eval (lookup s) e) eqn:E; [discriminate|exfalso; exact (covers_eval _ _ C E)].
 Qed.
 
+Lemma is_pos_nm : forall s e, covers s (vars e) -> nm (is_pos s e).
+Proof.
+  intros s e C. unfold is_pos. destruct (eval (lookup s) e) eqn:E; [discriminate|exfalso; exact (covers_eval _ _ C E)].
+Qed.
+
+Lemma covers_kept : forall s dr l, covers s (vars_l (map snd l)) -> covers s (vars_l (kept dr l)).
+Proof. intros. eapply covers_sub; [|exact H]. apply kept_vars. Qed.
+
 Lemma fold_or_nm : forall X (f : X -> result bool) l, (forall x, In x l -> nm (f x)) -> nm (fold_or f l).
 Proof.
   induction l as [|q r IH]; intros H; cbn [fold_or]; [discriminate|].
@@ -166,6 +174,12 @@ Proof.
   apply assoc_in_keys. rewrite (eval_mapping_keys _ _ _ Hl). auto.
 Qed.
 
+Lemma scalar_nm : forall s es, good s -> covers s (vars_l es) -> nm (scalar s es).
+Proof.
+  intros s es G C. unfold scalar. destruct es as [|e r]; [discriminate|].
+  destruct (good_total s G) as [_ [F _]]. rewrite F. cbn [negb]. rewrite (eval_all_ok _ _ C). discriminate.
+Qed.
+
 Definition build_nm_ok (p : pt) : Prop :=
   wf p -> atomic p = true -> forall s drop, good s -> covers s (pnames p) ->
     nm (build p s drop) /\ nm (meas_at p s).
@@ -184,11 +198,14 @@ Proof.
       { apply covers_subset. apply covers_app; split; auto. apply covers_app; split; auto. }
       rewrite Hs. cbn [negb]. rewrite (eval_all_ok _ _ Cr). cbn [bind].
       apply bind_nm; [apply is_zero_nm; auto|]. intros; discriminate.
-    + destruct drop; [discriminate|].
+    + destruct (adrop chs drop); [discriminate|].
       apply bind_nm; [apply is_zero_nm; auto|]. intros z _. destruct z; [discriminate|].
       rewrite (eval_all_ok _ _ Cr). discriminate.
-    + destruct drop; [discriminate|]. rewrite F. cbn [negb].
-      apply bind_nm; [apply is_zero_nm; auto|]. intros z _. rewrite (eval_all_ok _ _ Cr). discriminate.
+    + destruct (adrop chs drop); [discriminate|]. rewrite F. cbn [negb].
+      apply bind_nm; [apply is_zero_nm; auto|]. intros z _. destruct (forallb _ reads); discriminate.
+    + apply bind_nm; [apply is_pos_nm; auto|]. intros pos _. destruct pos; [|discriminate].
+      rewrite (eval_all_ok s (kept drop (combine chs reads))); [discriminate|].
+      eapply covers_sub; [|exact Cr]. apply kept_combine_vars.
   - apply covers_app in C as [Cm C]. apply covers_app in C as [Cc Cs].
     cbn [wf] in Hwf. destruct Hwf as [_ Hwf]. apply wf_subs in Hwf.
     rewrite Forall_forall in H, Hwf. rewrite forallb_forall in Hat.
@@ -199,6 +216,12 @@ Proof.
       apply fold_or_nm. intros q Hin. apply Hq; auto.
     + cbn [meas_at]. apply bind_nm; [apply meas_nm; auto|]. intros _ _.
       apply fold_unit_nm. intros q Hin. apply Hq; auto.
+  - (* Ari *)
+    apply covers_app in C as [Ci Co]. cbn [wf] in Hwf. destruct (IHp Hwf Hat s drop G Ci) as [Hb Hm].
+    split; [|exact Hm]. cbn [build]. apply bind_nm; auto. intros w _. destruct w; [|discriminate].
+    apply bind_nm; [|intros; discriminate]. apply scalar_nm; auto.
+    apply covers_app in Co as [Ca Cc]. unfold vars_l. rewrite flat_map_app. apply covers_app. split; auto.
+    apply covers_kept; auto.
   - cbn [wf] in Hwf. destruct Hwf as [Hsub Hwf]. rewrite subset_in in Hsub.
     split.
     + cbn [build]. apply eager_nm; auto. intros l Hl.
@@ -230,7 +253,14 @@ Proof.
   - apply run_atomic_nm; auto. cbn [wf] in Hwf. cbn [atomic]. tauto.
   - cbn [run]. cbn [pnames] in C. apply covers_app in C as [Ci Co]. cbn [wf] in Hwf.
     apply bind_nm.
-    + destruct drop; [discriminate|]. rewrite (eval_all_ok _ _ Co). discriminate.
+    + rewrite (eval_all_ok s (kept drop ow)); [discriminate|]. apply covers_kept; auto.
+    + intros _ _. apply IHp; auto.
+  - (* Ari *)
+    cbn [run]. cbn [pnames] in C. apply covers_app in C as [Ci Co]. cbn [wf] in Hwf.
+    apply bind_nm.
+    + apply scalar_nm; auto.
+      apply covers_app in Co as [Ca Cc]. unfold vars_l. rewrite flat_map_app. apply covers_app. split; auto.
+      apply covers_kept; auto.
     + intros _ _. apply IHp; auto.
   - cbn [run]. cbn [pnames] in C. apply covers_app in C as [Cc C]. apply covers_app in C as [Cm Cs].
     cbn [wf] in Hwf. apply wf_subs in Hwf. rewrite Forall_forall in H, Hwf.
